@@ -159,6 +159,12 @@ Fixpoint take_ids (k : nat) (s : state) : Z * state :=
             end
   end.
 
+(* error_all_requests: the locked swap of _requests; the old entries are queued for their ConnectionShutdown callback *)
+Definition err_swap (s : state) : state :=
+    let order := match reqs s with [] => [] | (_, cb) :: rest => cb :: rev (map snd rest) end in
+    set_erroring (erroring s ++ order)
+      (set_ghost (map (fun c => (fst c, TLost)) (reqs s) ++ ghost s) (set_reqs [] s)).
+
 Inductive op :=
 | Borrow                     (* HostConnection.borrow_connection: `with conn.lock` test + in_flight++ + get_request_id *)
 | WaitIds (n : Z)            (* Connection.wait_for_responses lock region *)
@@ -185,7 +191,8 @@ Inductive op :=
 | SetKsLock                  (* set_keyspace_async: lock region *)
 | SetKsGetId                 (* set_keyspace_async: get_request_id under the lock *)
 | SetWritable (b : bool)     (* libev reactor only: write buffer watermark *)
-| RecvPush.                  (* process_msg for a server-pushed EVENT frame (stream < 0): msg_received; handle_pushed *)
+| RecvPush                   (* process_msg for a server-pushed EVENT frame (stream < 0): msg_received; handle_pushed *)
+| CloseRun.                  (* AsyncioConnection._close, the DEFERRED half of close(): `if not self.is_defunct: error_all_requests(...)` *)
 
 Definition step (s : state) (o : op) : state :=
   match o with
@@ -330,10 +337,7 @@ Definition step (s : state) (o : op) : state :=
   | ErrCp =>
     fold_right (fun c acc => ev (ECpError (fst (snd c))) acc)
                (set_cps (map (fun c => (fst c, (fst (snd c), true))) (cps s)) s) (cps s)
-  | ErrSwap =>
-    let order := match reqs s with [] => [] | (_, cb) :: rest => cb :: rev (map snd rest) end in
-    set_erroring (erroring s ++ order)
-      (set_ghost (map (fun c => (fst c, TLost)) (reqs s) ++ ghost s) (set_reqs [] s))
+  | ErrSwap => err_swap s
   | ErrCall =>
     match erroring s with
     | [] => s
@@ -374,6 +378,7 @@ Definition step (s : state) (o : op) : state :=
     else s
   | SetWritable b => set_flags (defunct s) (closed s) b (msg_received s) s
   | RecvPush => set_flags (defunct s) (closed s) (writable s) true s
+  | CloseRun => if defunct s then s else err_swap s
   end.
 
 Definition run (s : state) (ops : list op) : state := fold_left step ops s.
@@ -439,7 +444,7 @@ Fixpoint dropped (cb : Z) (l : list event) : Z :=
 Definition benign (o : op) : bool :=
   match o with
   | WaitIds _ | RecvPop _ DFail | RecvPop _ DProto | RecvDeliver | CpNew _ | TimeoutPop _ false
-  | DefunctFlag | Close | ErrCp | ErrSwap | ErrCall | OwnerReturn | SetWritable _ => false
+  | DefunctFlag | Close | ErrCp | ErrSwap | ErrCall | OwnerReturn | SetWritable _ | CloseRun => false
   | _ => true
   end.
 
